@@ -163,6 +163,10 @@ type FileProj struct {
 	HasUnkM   int                   `json:"hasunkm"`
 	HasUnkF   int                   `json:"hasunkf"`
 	NMsgs     int                   `json:"nmsgs"`
+	// EmptyNotNil: list slots that hold a non-nil slice without messages. A File is
+	// "deeply equal" to another only if they also agree on this (reflect.DeepEqual
+	// distinguishes nil from empty); the Contract does not look at it.
+	EmptyNotNil []string `json:"emptynotnil"`
 }
 
 func (p *Profile) projFile(f *fit.File) *FileProj {
@@ -170,7 +174,7 @@ func (p *Profile) projFile(f *fit.File) *FileProj {
 		return nil
 	}
 	fp := &FileProj{Hdr: projHeader(f.Header), CRC: int(f.CRC), Type: int(f.Type()), Slots: map[string][]*MsgProj{},
-		Creator: []*MsgProj{}, TC: []*MsgProj{}, UnkM: [][]int{}, UnkF: [][]int{}, Accessors: []string{}}
+		Creator: []*MsgProj{}, TC: []*MsgProj{}, UnkM: [][]int{}, UnkF: [][]int{}, Accessors: []string{}, EmptyNotNil: []string{}}
 	fp.FileId = p.projMsg(f.FileId)
 	if f.FileCreator != nil {
 		fp.Creator = append(fp.Creator, p.projMsg(f.FileCreator))
@@ -195,6 +199,9 @@ func (p *Profile) projFile(f *fit.File) *FileProj {
 			list := []*MsgProj{}
 			switch fv.Kind() {
 			case reflect.Slice:
+				if !fv.IsNil() && fv.Len() == 0 {
+					fp.EmptyNotNil = append(fp.EmptyNotNil, name)
+				}
 				for j := 0; j < fv.Len(); j++ {
 					e := fv.Index(j)
 					if e.Kind() == reflect.Ptr && e.IsNil() {
